@@ -101,6 +101,24 @@ func (c *apiCase) violate(sig, msg string, extra map[string]interface{}) {
 	violate(c.run, evid.Violation{Sig: sig, Msg: msg, Witness: w, Case: c.caseID})
 }
 
+// observe counts an observation that is not a violation and keeps the first example per counter in the evidence
+// under "observations".
+func (c *apiCase) observe(counter string, example interface{}) {
+	c.run.Count(counter, 1)
+	obsMu.Lock()
+	defer obsMu.Unlock()
+	if observations[counter] == nil {
+		observations[counter] = example
+		cp := map[string]interface{}{}
+		for k, v := range observations {
+			cp[k] = v
+		}
+		c.run.Set("observations", cp)
+	}
+}
+
+var observations = map[string]interface{}{}
+
 // slotTable is the whole ground truth (part of witnesses where the whole state matters).
 func (c *apiCase) slotTable() []*slot {
 	var t []*slot
@@ -970,8 +988,11 @@ func (c *apiCase) unreleasablePosts(lr *listResp, state map[string]string) map[s
 			w2 := copyW(w)
 			w2["change"] = ch
 			if ch.IP == e.IP {
-				c.violate("release-unreleasable-entry-released-"+s.Kind,
-					fmt.Sprintf("entry listed releasable:false (status %q) was released by posting it back: ip %s key %q", e.Status, e.IP, ch.Before), w2)
+				// C11 says listed entries CAN be released; it does not say a releasable:false entry must be refused.
+				// Observation only (freeing a LIVE pod's ip is judged below).
+				c.observe("obs_unreleasable_entry_released_"+s.Kind, map[string]interface{}{
+					"what":   fmt.Sprintf("entry listed releasable:false (status %q) was released by posting it back: ip %s key %q", e.Status, e.IP, ch.Before),
+					"detail": w2})
 			} else {
 				c.violate("release-unreleasable-entry-changed-other-ip-"+s.Kind, fmt.Sprintf("POST changed ip %s: %q -> %q", ch.IP, ch.Before, ch.After), w2)
 			}
